@@ -856,13 +856,17 @@ def _c03_last_is_exit(it):
 
 def c03_classes(stmts):
     """F23: exit repeat is a direct item of a loop body.
-       F24: an if / if-else follows, in the same statement list, an `if` without else whose code ends with an exit-repeat jump.
+       F24: an if / if-else follows, in the same statement list, an `if` without else whose code ends with an exit-repeat jump
+            (unless the list is the body of a loop that lies inside an if branch: such a body is visited twice and repaired).
        F25: exit repeat in an else branch, not rescued (= not the second-to-last instruction-level statement of an enclosing branch).
        F126: exit repeat in a then branch, not rescued (not last item of an if without else, not second-to-last statement of an
              enclosing branch counting the else jump)."""
     out = set()
 
-    def walk(items, ctx, fixed):
+    def walk(items, ctx, fixed, ifdepth=0, rescanned=False):
+        """ifdepth: number of if branches between this list and the nearest enclosing loop body (or the handler);
+        rescanned: this list is a loop body that the heuristic visits more than once (a loop nested in an if branch is scanned when
+        the enclosing list is scanned and again when the extracted branch is: the second visit finds the `jz` the first one skipped)"""
         n = len(items)
         for i, it in enumerate(items):
             if isinstance(it, _X):
@@ -876,25 +880,25 @@ def c03_classes(stmts):
                     out.add("F126")
             elif it != "s":
                 k = it[0]
-                if k in ("if", "ifelse"):
+                if k in ("if", "ifelse") and not (ctx == "loop" and rescanned):
                     if any((not isinstance(e, _X)) and e != "s" and e[0] == "if" and _c03_last_is_exit(e) for e in items[:i]):
                         out.add("F24")
                 if k == "if":
                     f = _c03_flat(it[1]); fx = set(fixed)
                     if len(f) >= 2 and isinstance(f[-2], _X):
                         fx.add(f[-2])
-                    walk(it[1], "then", fx)
+                    walk(it[1], "then", fx, ifdepth + 1, rescanned)
                 elif k == "ifelse":
                     f = _c03_flat(it[1]) + ["ej"]; fx = set(fixed)
                     if len(f) >= 2 and isinstance(f[-2], _X):
                         fx.add(f[-2])
-                    walk(it[1], "thenE", fx)
+                    walk(it[1], "thenE", fx, ifdepth + 1, rescanned)
                     f = _c03_flat(it[2]); fx2 = set(fixed)
                     if len(f) >= 2 and isinstance(f[-2], _X):
                         fx2.add(f[-2])
-                    walk(it[2], "else", fx2)
+                    walk(it[2], "else", fx2, ifdepth + 1, rescanned)
                 else:
-                    walk(it[1], "loop", set())
+                    walk(it[1], "loop", set(), 0, rescanned or ifdepth > 0)
     walk(_c03_box(stmts), "top", set())
     return sorted(out)
 
